@@ -74,7 +74,11 @@ def crc_term(eng, c):
     key = tuple(_ikey(x) for x in items)
     reg = eng.__dict__.setdefault("crc_reg", {})
     if key not in reg:
-        sym = z3.BitVec("crc!%d" % len(reg), 32)
+        if eng.intmode == "bv":
+            sym = z3.BitVec("crc!%d" % len(reg), 32)
+        else:
+            sym = z3.Int("crc!%d" % len(reg))
+            eng.add_axiom(z3.And(sym >= 0, sym < 2 ** 32))
         for k2, (sym2, items2) in reg.items():
             same = _seq_eq(eng, items, items2) if len(items) == len(items2) else False
             eng.add_axiom((sym == sym2) == (same if is_sym(same) else z3.BoolVal(same)))
@@ -82,7 +86,7 @@ def crc_term(eng, c):
     h = reg[key][0]
     if eng.intmode == "bv":
         return eng._rec(z3.ZeroExt(eng.W - 32, h), 32)
-    return z3.BV2Int(h)
+    return h
 
 
 def _ikey(x):
@@ -108,6 +112,10 @@ def compare(eng, t, a, b):
         else:
             r = _seq_eq(eng, a.items, b.items)
         return r if t is ast.Eq else _neg(r)
+    if hasattr(a, "as_crc_term") or hasattr(b, "as_crc_term"):
+        a = a.as_crc_term(eng) if hasattr(a, "as_crc_term") else a
+        b = b.as_crc_term(eng) if hasattr(b, "as_crc_term") else b
+        return eng.compare(t(), a, b)
     if isinstance(a, CrcVal) or isinstance(b, CrcVal):
         a = crc_term(eng, a) if isinstance(a, CrcVal) else a
         b = crc_term(eng, b) if isinstance(b, CrcVal) else b
@@ -398,6 +406,9 @@ def to_bytes(eng, v, size, order="little", signed=False):
         if eng.branch(z3.Or(v < 0, v >= (1 << (8 * size)))):
             raise err("OverflowError")
         items = [(v / (1 << (8 * i))) % 256 for i in range(size)]
+        reg_ = eng.__dict__.setdefault("byteof", {})
+        for i, it in enumerate(items):
+            reg_[it.get_id()] = (it, v, i, size)
     if order == "big":
         items.reverse()
     return SBytes(items)
@@ -409,6 +420,12 @@ def from_bytes(eng, b, order="little"):
         raise ModelRaise("Desync")
     if order == "big":
         items.reverse()
+    reg_ = eng.__dict__.get("byteof")
+    if reg_ and items and all(is_sym(x) and x.get_id() in reg_ for x in items):
+        infos = [reg_[x.get_id()] for x in items]
+        v0, n0 = infos[0][1], infos[0][3]
+        if n0 == len(items) and all(inf[1] is v0 and inf[2] == i and inf[3] == n0 for i, inf in enumerate(infos)):
+            return v0  # the little-endian bytes of v0, reassembled
     acc = 0
     for i, x in enumerate(items):
         acc = eng.binop(ast.BitOr() if eng.intmode == "bv" else ast.Add(), acc, eng.binop(ast.LShift(), x, 8 * i))
@@ -584,6 +601,8 @@ def call_method(eng, obj, name, args, kw):
         if not r:
             raise ModelRaise("AttributeError", [name], cls=AttributeError)
         f = r[1]
+        if isinstance(f, SClass):
+            return eng.new(f, *args, **kw)
         decos = [d.id for d in f.node.decorator_list if isinstance(d, ast.Name)] if isinstance(f, FuncRef) else []
         if "staticmethod" in decos:
             return eng.call_function(f, args, kw)
@@ -1056,6 +1075,8 @@ def _pure(fn):
     except TypeError:
         return False
     slf = builtins.getattr(fn, "__self__", None)
+    if isinstance(slf, type) and issubclass(slf, pathlib.PurePath) and fn.__name__ == "cwd":
+        return True
     if isinstance(slf, pathlib.PurePath) and fn.__name__ in _PURE_PATH_METHODS:
         return True
     if isinstance(slf, str):
@@ -1144,3 +1165,16 @@ reg(_stat.S_ISSOCK, _fmt_is(0o140000))
 reg(_stat.S_ISFIFO, _fmt_is(0o010000))
 reg(_stat.S_ISCHR, _fmt_is(0o020000))
 reg(_stat.S_ISBLK, _fmt_is(0o060000))
+
+
+def _next(eng, it, *default):
+    xs = eng.iterate(it)
+    if xs:
+        return xs[0]
+    if default:
+        return default[0]
+    raise ModelRaise("StopIteration", cls=StopIteration)
+
+
+reg(next, _next)
+reg(iter, lambda eng, x: eng.iterate(x))
